@@ -87,6 +87,23 @@ package flow
 //@     invariant[slept] forall j Int :: n0 <= j && j < gChkN ==> (j + 1 < gChkN ? sel(gChkSlept, j + 1) : slept_ns) == sel(gChkSlept, j) + sel(gChkWait, j)
 //@     invariant[slept-first] (gChkN == n0 ==> slept_ns == old(slept_ns)) && (gChkN > n0 ==> sel(gChkSlept, n0) == old(slept_ns))
 
+// ---- which statistic a rule is bound to (C02: "the tokens already admitted in the current bucket-aligned statistic
+// window" of interval I, of the rule's own resource or of the referenced resource for an associated rule)
+//@ spec func needStat(r) = r.TokenCalculateStrategy == WarmUp || r.ControlBehavior == Reject
+// a window of length I slides by the global bucket length whenever I is a whole number of global buckets within the
+// global span; otherwise it is one bucket of length I
+//@ spec func slidingSamples(I) = (I <= config.GlobalStatisticIntervalMsTotal() && I >= config.GlobalStatisticBucketLengthInMs() && I % config.GlobalStatisticBucketLengthInMs() == 0) ? I / config.GlobalStatisticBucketLengthInMs() : 1
+//@ func generateStatFor(rule) (r, err)
+//@   props C02
+//@   requires rule != nil && nopStat != nil && base.IllegalStatisticParamsError != nil && base.IllegalGlobalStatisticParamsError != nil && base.GlobalStatisticNonReusableError != nil && base.IllegalStatisticParamsError != base.GlobalStatisticNonReusableError && base.IllegalGlobalStatisticParamsError != base.GlobalStatisticNonReusableError
+//@   let I = rule.StatIntervalInMs
+//@   let dflt = I == 0 || I == config.MetricStatisticIntervalMs()
+//@   ensures[no-statistic-needed] !needStat(rule) ==> r == nopStat && err == nil
+//@   ensures[result-or-error] needStat(rule) ==> ((r == nil) <==> (err != nil)) && (r != nil ==> fresh(r))
+//@   ensures[default-interval-reads-the-resources-own-metric] needStat(rule) && dflt ==> err == nil && r.reuseResourceStat && dynptr(r.readOnlyMetric) == ref(stat.resNodeMap[rule.RelationStrategy == AssociatedResource ? rule.RefResource : rule.Resource].metric)
+//@   ensures[shared-window-is-a-view-of-that-resources-array] needStat(rule) && !dflt && err == nil && r.reuseResourceStat ==> cast(dynptr(r.readOnlyMetric), stat_base.SlidingWindowMetric).real == stat.resNodeMap[rule.RelationStrategy == AssociatedResource ? rule.RefResource : rule.Resource].arr && cast(dynptr(r.readOnlyMetric), stat_base.SlidingWindowMetric).intervalInMs == I && cast(dynptr(r.readOnlyMetric), stat_base.SlidingWindowMetric).sampleCount == slidingSamples(I)
+//@   ensures[standalone-window-slides-by-global-buckets] needStat(rule) && !dflt && err == nil && !r.reuseResourceStat ==> typeis(r.writeOnlyMetric, "*core/stat/base.BucketLeapArray") && cast(dynptr(r.writeOnlyMetric), stat_base.BucketLeapArray).data.intervalInMs == I && cast(dynptr(r.writeOnlyMetric), stat_base.BucketLeapArray).data.sampleCount == slidingSamples(I) && cast(dynptr(r.readOnlyMetric), stat_base.SlidingWindowMetric).real == cast(dynptr(r.writeOnlyMetric), stat_base.BucketLeapArray) && cast(dynptr(r.readOnlyMetric), stat_base.SlidingWindowMetric).intervalInMs == I
+
 //@ spec func independent(tc) = !tc.boundStat.reuseResourceStat && tc.boundStat.writeOnlyMetric != nil
 //@ spec func added(g, m, e) = sel(sel(g, dynptr(m)), e)
 
@@ -149,7 +166,7 @@ package flow
 //@   modifies nothing
 
 // warm-up: representation invariant established by the constructor for rules accepted by IsValidRule
-//@ spec func wuInv(c) = c.threshold > 0.0 && c.slope >= 0.0 && c.warningToken <= c.maxToken && c.maxToken < 4611686018427387904 && c.coldFactor >= 2
+//@ spec func wuInv(c) = c.threshold > 0.0 && c.threshold <= 1000000.0 && c.slope >= 0.0 && c.warningToken <= c.maxToken && c.maxToken < 4611686018427387904 && c.coldFactor >= 2
 
 //@ spec func wuSlope(c) = c.slope == R(c.coldFactor - 1) / c.threshold / R(c.maxToken - c.warningToken)
 //@ func (c *WarmUpTrafficShapingCalculator) CalculateAllowedTokens(batchCount, flag) r
@@ -161,6 +178,19 @@ package flow
 //@   ensures[above-warning] c.storedTokens >= c.warningToken ==> r == 1.0 / (R(c.storedTokens - c.warningToken) * c.slope + 1.0 / c.threshold)
 //@   ensures[below-warning] c.storedTokens < c.warningToken ==> r == c.threshold
 //@   modifies c.storedTokens, c.lastFilledTime
+
+// the refill step. Above the warning line the bucket is refilled only while demand stays BELOW the cold rate: a second in
+// which the admitted requests reached the whole-request cold rate floor(threshold/coldFactor) — all a saturating caller can
+// get while the bucket is full — must not refill it, otherwise the bucket never drains and the rule never warms up
+//@ func (c *WarmUpTrafficShapingCalculator) coolDownTokens(currentTime, passQps) r
+//@   props C11
+//@   requires c != nil && wuInv(c) && 0 <= c.storedTokens && c.storedTokens <= c.maxToken && passQps >= 0.0
+//@   requires c.lastFilledTime <= currentTime && currentTime < 4611686018427387904
+//@   ensures[capped] r <= c.maxToken
+//@   ensures[saturating-demand-does-not-refill-a-cold-bucket] forall q Int :: c.storedTokens > c.warningToken && q >= 0 && R(q) * R(c.coldFactor) <= c.threshold && c.threshold < R(q + 1) * R(c.coldFactor) && passQps >= R(q) ==> r == c.storedTokens
+//@   ensures[at-the-warning-line-unchanged] c.storedTokens == c.warningToken ==> r == c.storedTokens
+//@   ensures[never-drains-here] r >= c.storedTokens
+//@   modifies nothing
 
 // cold start: a full bucket yields threshold/coldFactor when the slope is the one the constructor computes
 //@ lemma warmup-cold-start {C11}: forall thr Real :: forall cf Int :: forall mx Int :: forall wn Int :: thr > 0.0 && cf >= 2 && mx > wn ==> 1.0 / (R(mx - wn) * (R(cf - 1) / thr / R(mx - wn)) + 1.0 / thr) == thr / R(cf)
@@ -198,34 +228,47 @@ package flow
 // an old list keep reading it); the raw map is recorded.
 //@ spec func allValidLists(m) = (forall r Str :: has(m, r) ==> allocated(base(m[r]))) && (forall r Str :: forall k Int :: has(m, r) && 0 <= k && k < len(m[r]) ==> validRule(m[r][k]))
 //@ func onRuleUpdate(rawResRulesMap) err
-//@   props C13
+//@   props C13, C14
 //@   requires[holds-the-update-lock]{C15} wlockcount(updateRuleMux) > 0
-//@   requires tcMap != nil
+//@   requires tcMap != nil && allocated(tcMap)
 //@   ensures[raw-recorded] err == nil ==> currentRules == rawResRulesMap
 //@   ensures[new-table-swapped-in] err == nil ==> tcMap != nil && fresh(tcMap)
+//@   let pub = tcMap
+//@   ensures[published-lists-not-rewritten]{C13,C15} forall r Str :: forall k Int :: old(has(pub, r)) && old(allocated(base(pub[r]))) && 0 <= k && k < len(old(pub[r])) ==> old(pub[r])[k] == old(pub[r][k])
 //@   modifies tcMap, currentRules
 //@   loop 1:
 //@     invariant[valid-map-is-new] validResRulesMap != nil && fresh(validResRulesMap) && allValidLists(validResRulesMap)
-//@     invariant[nothing-else-written] frame()
+//@     invariant[nothing-else-written]{seq} frame()
+//@     invariant[published-lists-untouched]{conc} forall r Str :: forall k Int :: old(has(pub, r)) && old(allocated(base(pub[r]))) && 0 <= k && k < len(old(pub[r])) ==> old(pub[r])[k] == old(pub[r][k])
 //@   loop 2:
 //@     invariant[valid-map-is-new] validResRulesMap != nil && fresh(validResRulesMap) && allValidLists(validResRulesMap)
 //@     invariant[valid-list-is-new] (cap(validResRules) == 0 || fresh(base(validResRules))) && (forall k Int :: 0 <= k && k < len(validResRules) ==> validRule(validResRules[k]))
 //@     invariant[valid-list-is-not-in-the-map-yet] forall r Str :: has(validResRulesMap, r) ==> base(validResRulesMap[r]) != base(validResRules)
-//@     invariant[nothing-else-written] frame()
+//@     invariant[nothing-else-written]{seq} frame()
+//@     invariant[published-lists-untouched]{conc} forall r Str :: forall k Int :: old(has(pub, r)) && old(allocated(base(pub[r]))) && 0 <= k && k < len(old(pub[r])) ==> old(pub[r])[k] == old(pub[r][k])
 //@   loop 3:
 //@     invariant[clone-is-new] tcMapClone != nil && fresh(tcMapClone) && (forall r Str :: has(tcMapClone, r) ==> fresh(base(tcMapClone[r])))
+//@     invariant[clone-lists-allocated] forall r Str :: has(tcMapClone, r) ==> allocated(base(tcMapClone[r])) && base(tcMapClone[r]) != 0
+//@     invariant[clone-domain] forall r Str :: has(tcMapClone, r) ==> has(tcMap, r) && sel(#seen, r) && len(tcMapClone[r]) == len(tcMap[r])
+//@     invariant[clone-is-complete-so-far] forall r Str :: has(tcMap, r) && sel(#seen, r) ==> has(tcMapClone, r)
+//@     invariant[clone-lists-are-separate] forall r Str :: forall q Str :: has(tcMapClone, r) && has(tcMapClone, q) && r != q && allocated(base(tcMapClone[r])) && allocated(base(tcMapClone[q])) ==> base(tcMapClone[r]) != base(tcMapClone[q])
 //@     invariant[valid-lists] allValidLists(validResRulesMap)
 //@     invariant[clone-lists-are-not-rule-lists] forall r Str :: forall q Str :: has(tcMapClone, r) && has(validResRulesMap, q) ==> base(tcMapClone[r]) != base(validResRulesMap[q])
-//@     invariant[nothing-else-written] frame()
+//@     invariant[nothing-else-written]{seq} frame()
+//@     invariant[published-lists-untouched]{conc} forall r Str :: forall k Int :: old(has(pub, r)) && old(allocated(base(pub[r]))) && 0 <= k && k < len(old(pub[r])) ==> old(pub[r])[k] == old(pub[r][k])
 //@   loop 4:
 //@     invariant[new-table] m != nil && fresh(m)
 //@     invariant[clone-lists-are-private] forall r Str :: has(tcMapClone, r) ==> fresh(base(tcMapClone[r]))
+//@     invariant[clone-lists-allocated] forall r Str :: has(tcMapClone, r) ==> allocated(base(tcMapClone[r])) && base(tcMapClone[r]) != 0
+//@     invariant[clone-lists-are-separate] forall r Str :: forall q Str :: has(tcMapClone, r) && has(tcMapClone, q) && r != q && allocated(base(tcMapClone[r])) && allocated(base(tcMapClone[q])) ==> base(tcMapClone[r]) != base(tcMapClone[q])
+//@     invariant[clone-domain] forall r Str :: (has(tcMapClone, r) <==> has(tcMap, r)) && (has(tcMap, r) ==> len(tcMapClone[r]) == len(tcMap[r]))
 //@     invariant[clone-lists-are-not-rule-lists] forall r Str :: forall q Str :: has(tcMapClone, r) && has(validResRulesMap, q) ==> base(tcMapClone[r]) != base(validResRulesMap[q])
 //@     invariant[valid-lists] allValidLists(validResRulesMap)
-//@     invariant[nothing-else-written] frame()
+//@     invariant[nothing-else-written]{seq} frame()
+//@     invariant[published-lists-untouched]{conc} forall r Str :: forall k Int :: old(has(pub, r)) && old(allocated(base(pub[r]))) && 0 <= k && k < len(old(pub[r])) ==> old(pub[r])[k] == old(pub[r][k])
 //@ func LoadRules(rules) (changed, err)
 //@   props C13
-//@   objinv tcMap != nil
+//@   objinv tcMap != nil && allocated(tcMap)
 //@   panics never
 //@   sets gFlowLoadN = old(gFlowLoadN) + 1
 //@   sets gFlowLoadArg = rules
